@@ -76,3 +76,12 @@ Theorem C19_driver_ctrlc_or_failure_exit_nonzero :
     d_ctrlc st = true \/ (exists d b, In (d, RErr b) (d_reported st)) -> exit_of st <> 0%N.
 Proof. exact driver_ctrlc_or_failure_exit_nonzero. Qed.
 Print Assumptions C19_driver_ctrlc_or_failure_exit_nonzero.
+
+(* ---- the serial driver (Serial.v): once the token is set, every file still to come is reported Skipped *)
+From SLT Require Import Serial SerialProofs.
+
+Theorem C19_serial_no_new_work :
+  forall ff sched st, s_token st = true ->
+    exists new, s_reported (srun ff st sched) = s_reported st ++ new /\ Forall (fun r => r = RSkipped) new.
+Proof. exact serial_no_new_work. Qed.
+Print Assumptions C19_serial_no_new_work.
